@@ -1,0 +1,27 @@
+//go:build verif
+
+package p2p
+
+// Verification-harness exports (read-only) for the frame model of C15: constants of rlpx.go / peer.go and the
+// protocol-handshake reader. No behaviour of the package changes.
+
+// MaxUint24Verif is the largest frame size WriteMsg accepts (24-bit size field of the frame header).
+const MaxUint24Verif = maxUint24
+
+// BaseProtocolMaxMsgSizeVerif is the size gate of readProtocolHandshake.
+const BaseProtocolMaxMsgSizeVerif = baseProtocolMaxMsgSize
+
+// HandshakeMsgVerif / DiscMsgVerif are the two message codes readProtocolHandshake distinguishes.
+const (
+	HandshakeMsgVerif = handshakeMsg
+	DiscMsgVerif      = discMsg
+)
+
+// ZeroHeaderVerif returns a copy of the 3 header bytes WriteMsg puts behind the 24-bit frame size.
+func ZeroHeaderVerif() []byte { return append([]byte{}, zeroHeader...) }
+
+// ReadProtocolHandshakeVerif runs readProtocolHandshake with `version` as our protocol version and reports its error.
+func ReadProtocolHandshakeVerif(rw MsgReader, version uint64) error {
+	_, err := readProtocolHandshake(rw, &protoHandshake{Version: version})
+	return err
+}
